@@ -9,18 +9,26 @@ use std::str::FromStr;
 pub enum Lab {
     Alpha(u64),
     Greek(char),
-    /// 2..=8 non-space characters
+    /// the up-to-8 characters of a text label with the trailing padding blanks removed;
+    /// canonical text labels are 2..=8 non-space characters, but the value space of the
+    /// public enum is larger (inner/leading blanks, a single character, an α prefix) and
+    /// the mirror keeps such values exactly
     Str(String),
 }
 
 impl Lab {
-    /// The text form the documentation gives to the label.
+    /// The text form the documentation gives to the label (printing drops every blank).
     pub fn text(&self) -> String {
         match self {
             Lab::Alpha(i) => format!("α{i}"),
             Lab::Greek(c) => format!("{c}"),
-            Lab::Str(s) => s.clone(),
+            Lab::Str(s) => s.chars().filter(|c| *c != ' ').collect(),
         }
+    }
+
+    /// Does the printed text parse back to this very value (true for every canonical label)?
+    pub fn parse_roundtrips(&self) -> bool {
+        self.parsed().is_ok_and(|l| Lab::from_label(&l) == *self)
     }
 
     /// Construct the implementation's label directly from the enum variants.
@@ -49,8 +57,8 @@ impl Lab {
             Label::Alpha(i) => Lab::Alpha(*i as u64),
             Label::Greek(c) => Lab::Greek(*c),
             Label::Str(a) => {
-                let s: String = a.iter().filter(|c| **c != ' ').collect();
-                Lab::Str(s)
+                let s: String = a.iter().collect();
+                Lab::Str(s.trim_end_matches(' ').to_string())
             }
         }
     }
@@ -98,5 +106,21 @@ pub fn pool() -> Vec<Lab> {
     for i in 0..10 {
         v.push(Lab::Str(format!("k{i}")));
     }
+    // values of the public enum that are not canonical (they do not survive print+parse);
+    // they are only ever constructed directly
+    v.extend([
+        Lab::Str("my x".into()),
+        Lab::Str("my y".into()),
+        Lab::Str(" a".into()),
+        Lab::Str(" b".into()),
+        Lab::Str("q".into()),
+        Lab::Str("αx".into()),
+        Lab::Greek('α'),
+    ]);
     v
+}
+
+/// The canonical part of the pool: labels whose printed text parses back to themselves.
+pub fn canonical_pool() -> Vec<Lab> {
+    pool().into_iter().filter(Lab::parse_roundtrips).collect()
 }
